@@ -32,11 +32,17 @@ def gen_map(r: random.Random, with_zero: bool) -> dict:
         return [r.randrange(0, 50), r.randrange(0, 80), r.randrange(0, 50), r.randrange(0, 80), r.choice(NAMES),
                 r.choice([0, 2, 4]), r.choice([0, 2]), r.randrange(-5, 60), r.randrange(0, 60)]
 
+    # entries of one macro share their position (the same macro expanded several times), the rest differs
+    pool = [[r.choice(FILES), r.choice(["mac", "other_macro"]), r.randrange(0, 50), r.randrange(0, 80)]
+            for _ in range(r.randint(1, 3))]
+
     def mm() -> list:
         called = r.choice([None, None, [r.choice(FILES), r.randrange(0, 30), r.randrange(0, 20)]])
         ret = r.choice([None, r.randrange(0 if with_zero else 1, 45), r.randrange(1, 45)])
         params = {k: (r.choice(["3", "'str'", "$V", "Position<'a', 1, 2>"]) if r.random() < 0.8 else r.randrange(0, 9))
                   for k in r.sample(["$a", "$b", "$long_name"], r.randint(0, 3))}
+        if r.random() < 0.5:
+            return [*r.choice(pool), called, ret, params]
         return [r.choice(FILES), r.choice(["mac", "other_macro"]), r.randrange(0, 50), r.randrange(0, 80), called, ret, params]
 
     return {"map": {k: [r.randrange(0, 50), r.randrange(0, 80)] for k in okeys},
@@ -194,6 +200,24 @@ def main() -> None:
                  "mmap": {int(k): v for k, v in sm["macros"]["map"].items()}, "mpos_marks": sm["macros"]["pos_marks"]}
             r = random.Random(f"C14-real-{c.name}")
             cases.append((m, gen_f(r, m)))
+    # ... and by the real compiler for programs with macros (several expansions of one macro)
+    from gen_prog import Cfg, MacroGen
+    from lang import print_prog
+    mtexts = []
+    for i in range(60 if q else 400):
+        r = random.Random(f"C14-macro-{run.seed}-{i}")
+        g = MacroGen(r, Cfg(max_depth=2, max_block=2, max_routines=2, loops=r.random() < 0.5, terminator_prob=0.6))
+        mtexts.append(print_prog(g.macro_program(1)["flat"]))
+    for i, c in enumerate(run_impl([("compile", t) for t in mtexts])):
+        if c["ok"] and c["sm"]:
+            sm = c["sm"]
+            m = {"map": {int(k): v for k, v in sm["map"].items()}, "pos_marks": sm["pos_marks"],
+                 "mmap": {int(k): v for k, v in sm["macros"]["map"].items()}, "mpos_marks": sm["macros"]["pos_marks"]}
+            r = random.Random(f"C14-realc-{run.seed}-{i}")
+            cases.append((m, gen_f(r, m)))
+            run.count("compile-time maps", 1)
+            if len(m["mmap"]) > 1:
+                run.count("compile-time maps with several macro entries", 1)
     res = run_impl([("checks.c14:impl_case", m, f) for m, f in cases])
     ser = run_driver([[A("sm_ser"), sm_sexp(m)] for m, _ in cases])
     rew = run_driver([[A("sm_rewrite"), [[int(a), int(b)] for a, b in f.items()], sm_sexp(m)] for m, f in cases])
